@@ -259,6 +259,7 @@ int main(int argc, char **argv) {
     for (int i = 0; i < 256; i++) { char nm[16]; snprintf(nm, sizeof nm, "mf%d", i); mock_names[i] = strdup(nm); }
 
     ActC *pre = NULL; int npre = 0;
+    char again_value[64] = "", again_mode[256] = "";
     TestSuite *stack[MAXS];
     static char paths[MAXS][16384];
     int sp = 0;
@@ -278,6 +279,8 @@ int main(int argc, char **argv) {
             if (sp > 0) { add_suite_(stack[sp - 1], strdup(name), s); snprintf(paths[sp], sizeof paths[sp], "%s/%s", paths[sp - 1], name); }
             else { root = s; snprintf(paths[sp], sizeof paths[sp], "%s", name); }
             stack[sp++] = s;
+        } else if (!strncmp(buf, "again ", 6)) {
+            sscanf(buf, "again %63s %255s", again_value, again_mode);
         } else if (!strncmp(buf, "pre ", 4)) {
             /* acts executed by the program itself before the run starts */
             npre = parse_acts(buf + 4, &pre);
@@ -348,6 +351,15 @@ int main(int argc, char **argv) {
     else { fprintf(stderr, "bad mode %s\n", mode); return 2; }
 
     if (getpid() != main_pid) _exit(77);      /* a child escaped: must never happen */
+    if (again_mode[0]) {
+        /* a second run in the same process, with another time limit: "again <value|-> <mode>" (text reporter) */
+        if (!strcmp(again_value, "-")) unsetenv("CGREEN_PER_TEST_TIMEOUT"); else setenv("CGREEN_PER_TEST_TIMEOUT", again_value, 1);
+        TestReporter *second = create_text_reporter();
+        if (!strcmp(again_mode, "fork")) { unsetenv("CGREEN_NO_FORK"); status = run_test_suite(root, second); }
+        else if (!strcmp(again_mode, "inproc")) { setenv("CGREEN_NO_FORK", "1", 1); status = run_test_suite(root, second); }
+        else status = run_single_test(root, again_mode + 7, second);
+        if (getpid() != main_pid) _exit(77);
+    }
     FILE *st = fopen("status", "w");
     fprintf(st, "returned %d\n", status);
     fclose(st);
